@@ -1,5 +1,84 @@
-From Coq Require Import List String Arith Bool QArith Qcanon.
+(* C07 — parameter and initial-value overrides reach exactly their targets; nodes sharing template objects stay
+   independent.  Statements only; every proof is `exact <lemma of ValuesProofs>` or a computed witness. *)
+From Coq Require Import List String ZArith QArith Qcanon Bool Arith.
 From PV Require Import Heap Values ValuesProofs.
 Import ListNotations.
-Example C07_placeholder : 1 = 1. Proof. reflexivity. Qed.
-Print Assumptions C07_placeholder.
+Open Scope nat_scope.
+
+(* Full statement: for EVERY object store (template objects shared at will), every root circuit of any hierarchy
+   depth d whose unfolding exists, and EVERY finite history of update_var (scalar / array values, wildcard patterns),
+   edge-attribute updates and compilations with apply(node_values), the outputs of the implementation model (deepcopy,
+   write, re-register into the circuit object found on the path) are the outputs of the specification (functional
+   update of the addressed paths of the unshared tree, nothing else). *)
+Definition C07_full_statement : Prop := forall d r ops h t, abs d h r = Some t ->
+  snd (runI d r h ops) = snd (runS d t ops).
+
+(* It holds when no CircuitTemplate object is reachable along two paths (NodeTemplate and OperatorTemplate objects may be
+   shared freely), together with the simulation of the states. *)
+Theorem C07_partial : forall d r ops h t, abs d h r = Some t -> no_shared_subcircuit t = true ->
+  abs d (fst (runI d r h ops)) r = Some (fst (runS d t ops)) /\ snd (runI d r h ops) = snd (runS d t ops).
+Proof. exact history_refines_guard. Qed.
+Print Assumptions C07_partial.
+
+Theorem C07_refines_NoDup : forall d r ops h t, abs d h r = Some t -> NoDup (circ_ids t) ->
+  abs d (fst (runI d r h ops)) r = Some (fst (runS d t ops)) /\ snd (runI d r h ops) = snd (runS d t ops).
+Proof. exact history_refines. Qed.
+Print Assumptions C07_refines_NoDup.
+
+(* D27: two names for one sub-circuit object; update_var('c1/A/op/k', 5) also changes c2/A/op/k (1/2 expected) *)
+Definition d27_heap : heap :=
+  [OOp "op" ["d/dt * x = k*r + g + u"%string]
+       [("x"%string, Sc (mkq 1 4)); ("k"%string, Sc (mkq 1 2)); ("r"%string, Sc (mkq 2 1)); ("g"%string, Sc (mkq 1 1)); ("u"%string, Sc (mkq 0 1))];
+   ONode [(0, [])];
+   OCirc [("A"%string, 1); ("B"%string, 1)] [("A/op/x"%string, "B/op/u"%string, [("weight"%string, Sc (mkq 2 1))])];
+   OCirc [("c1"%string, 2); ("c2"%string, 2)] [("c1/A/op/x"%string, "c2/B/op/u"%string, [("weight"%string, Sc (mkq 1 2))])]].
+Definition d27_ops : list hop := [UpdVar ["c1"%string; "A"%string] "op" "k" (Sc (mkq 5 1)); Observe []].
+
+Theorem C07_shared_subcircuit_refuted : ~ C07_full_statement.
+Proof.
+  intros H. destruct (abs 1 d27_heap 3) as [t|] eqn:E; [|vm_compute in E; discriminate].
+  specialize (H 1 3 d27_ops d27_heap t E).
+  apply (f_equal (probe (["c2"%string; "A"%string], "op"%string, "k"%string))) in H.
+  vm_compute in E. injection E as <-. vm_compute in H. discriminate.
+Qed.
+Print Assumptions C07_shared_subcircuit_refuted.
+
+(* what the specification does: a functional update at node path n is read back at n and nowhere else *)
+Theorem C07_frame : forall n t a t' m, tset_node t n a = Some t' ->
+  tget_node t' m = if same_addr t n m then Some a else tget_node t m.
+Proof. exact tget_tset. Qed.
+Print Assumptions C07_frame.
+
+(* the mechanism: deepcopy of a node template yields a fresh object with the same content ... *)
+Theorem C07_deepcopy_fresh : forall h nid a, node_den h nid = Some a ->
+  exists h1 nid', copy_node h nid = Some (h1, nid') /\ extends h h1 /\ lookup h nid' = None /\ node_den h1 nid' = Some a.
+Proof. exact copy_node_spec. Qed.
+Print Assumptions C07_deepcopy_fresh.
+
+(* ... and re-registering it writes one path of the tree, provided the circuit objects on the path are not shared *)
+Theorem C07_add_node_template : forall d h c t n nid a,
+  abs d h c = Some t -> NoDup (circ_ids t) -> node_den h nid = Some a ->
+  match add_node_template d h c n nid with
+  | Some h' => exists t', tset_node t n a = Some t' /\ abs d h' c = Some t' /\ circ_ids t' = circ_ids t /\
+                          (forall i ob, lookup h i = Some ob -> ~ In i (circ_ids t) -> lookup h' i = Some ob)
+  | None => tset_node t n a = None
+  end.
+Proof. exact add_node_template_equiv. Qed.
+Print Assumptions C07_add_node_template.
+
+(* non-vacuity: A and B hold the SAME NodeTemplate object (and one OperatorTemplate object); the guard holds;
+   update_var('A/op/k', 5) then a per-node array on all/op/x: A.k = 5, B.k stays 1/2, x = 1, 2 in path order *)
+Definition nv_heap : heap :=
+  [OOp "op" ["d/dt * x = k*r + g + u"%string]
+       [("x"%string, Sc (mkq 1 4)); ("k"%string, Sc (mkq 1 2)); ("r"%string, Sc (mkq 2 1)); ("g"%string, Sc (mkq 1 1)); ("u"%string, Sc (mkq 0 1))];
+   ONode [(0, [])];
+   OCirc [("A"%string, 1); ("B"%string, 1)] [("A/op/x"%string, "B/op/u"%string, [("weight"%string, Sc (mkq 2 1))])]].
+Definition nv_ops : list hop :=
+  [UpdVar ["A"%string] "op" "k" (Sc (mkq 5 1)); UpdVar ["all"%string] "op" "x" (Arr [mkq 1 1; mkq 2 1]); Observe []].
+Example C07_nonvacuous :
+  (exists t, abs 0 nv_heap 2 = Some t /\ no_shared_subcircuit t = true) /\
+  let outs := snd (runI 0 2 nv_heap nv_ops) in
+  probe (["A"%string], "op"%string, "k"%string) outs = 5%Z /\ probe (["B"%string], "op"%string, "k"%string) outs = 1%Z /\
+  probe (["A"%string], "op"%string, "x"%string) outs = 1%Z /\ probe (["B"%string], "op"%string, "x"%string) outs = 2%Z.
+Proof. split; [eexists; split; vm_compute; reflexivity | vm_compute; auto]. Qed.
+Print Assumptions C07_nonvacuous.
